@@ -321,7 +321,14 @@ fn cert(args: &[&str]) -> String {
                 }
             }
             "R" | "RR" => match &rel {
-                None => out.push("r=noreloader".into()),
+                None => {
+                    if parts[0] == "RR" {
+                        // no reloader to run: the update of the files still happens
+                        disk.put(&disk.key, parts[2]);
+                        disk.put(&disk.cert, parts[3]);
+                    }
+                    out.push("r=noreloader".into())
+                }
                 Some(r) => {
                     let res = if parts[0] == "R" {
                         r.reload()
